@@ -13,8 +13,8 @@
        errors     (error pages, `visible` debug branch, recover)            errors/errors.go
        status     (short-circuits the inner handlers)                       status/status.go
        mime                              (transparent: sets a header)
-       templates  (ResponseBuffer, `code >= 300 || err` early return,
-                   http.ServeContent with the buffered status)     templates/templates.go
+       templates  (ResponseBuffer, `code >= 300 || err` early return that passes a buffered
+                   3xx response on, http.ServeContent with the buffered status) templates/templates.go
        innermost handler = script over {Header().Set, WriteHeader, Write, Flush, panic}
                            followed by `return status, err`.
 
@@ -315,14 +315,21 @@ Definition probe (ops : list op) (ret : Z) (err : bool) (x : st) : hres :=
   match run_script ops x with Done y => HRet ret err y | Pan y => HPan y end.
 
 (* ---------- templates ---------- *)
-Definition templates_mw (m : tmode) (inner : st -> hres) (x : st) : hres :=
-  match m with
-  | TOff => inner x
-  | _ =>
+(* ResponseBuffer.WriteBuffered: header fields, status and body as the handler wrote them *)
+Definition b_write_buffered (y : st) : out :=
+  if b_wrote y && negb (b_stream y) then
+    bnd (h_wh (b_status y) (set_chdr y (hcopy (b_hdr y) (chdr y))))
+        (fun z => match b_buf y with [] => Done z | _ => h_wr (b_buf y) z end)
+  else Done y.
+Definition templates_on (m : tmode) (inner : st -> hres) (x : st) : hres :=
     match inner (set_b x m false false 200 [] []) with
     | HPan y => HPan y
     | HRet code e y =>
-        if b_stream y || (300 <=? code) || e then HRet code e y
+        if b_stream y || (300 <=? code) || e then
+          (* not a template to execute; a buffered 3xx response is passed on *)
+          if (300 <=? code) && (code <? 400) && negb e then
+            match b_write_buffered y with Done z => HRet code e z | Pan z => HPan z end
+          else HRet code e y
         else if contains (b_buf y) TPL_OPEN then HRet 500 true y    (* template does not parse *)
         else
           (* CopyHeader, Content-Length, cache headers removed, http.ServeContent through
@@ -336,7 +343,11 @@ Definition templates_mw (m : tmode) (inner : st -> hres) (x : st) : hres :=
           | Done z => HRet 0 false z
           | Pan z => HPan z
           end
-    end
+    end.
+Definition templates_mw (m : tmode) (inner : st -> hres) (x : st) : hres :=
+  match m with
+  | TOff => inner x
+  | _ => templates_on m inner x
   end.
 
 (* ---------- status ---------- *)
